@@ -24,15 +24,16 @@ def cases(tier, seed):
     out = []
     n = 20 if tier == 'quick' else 220
     for i in range(n):
-        nI, nX = rng.choice(DIMS), rng.choice(DIMS)
+        # dimensions, z classes and footer conventions are cycled deterministically
+        nI, nX = DIMS[i % len(DIMS)], DIMS[(4 * i + 3) % len(DIMS)]
         while nI * nX > (6000 if tier == 'quick' else 17000):
-            nX = rng.choice(DIMS)
-        nZ = rng.choice([3, 4, 5, 9, 40]) if i % 5 else rng.choice([1030, 1024, 1025])
+            nX = rng.choice(DIMS[:6])
+        nZ = [3, 4, 5, 9, 40][(i // 5) % 5] if i % 5 else [1030, 1024, 1025][(i // 5) % 3]
         kind = ['wspec', 'wspec', 'wspec-irregular', 'segy', 'segy-irregular'][i % 5]
-        d = {'id': 'rb:%d:%s:%dx%dx%d' % (i, kind, nI, nX, nZ), 'kind': kind, 'shape': [nI, nX, nZ], 'cost': 1 + nI * nX / 1500}
+        d = {'id': 'rb:%d:%s:%dx%dx%d' % (i, kind, nI, nX, nZ), 'kind': kind, 'shape': [nI, nX, nZ], 'cost': 1 + nI * nX / 1500, 'prehistory': i % 2 == 1}
         if kind.startswith('wspec'):
             f = files.wspec_desc(rng, (nI, nX, nZ), 2, (4, 4, 1024), narr=rng.choice([0, 1, 2, 3, 5]) if kind == 'wspec' else rng.choice([2, 3]),
-                                 version=rng.choice([[0, 2, 9], [0, 2, 9], [0, 2, 1], [0, 1, 9]]) if kind == 'wspec' else [0, 2, 9],
+                                 version=[[0, 2, 9], [0, 2, 1], [0, 1, 9], [0, 2, 9]][(i // 5 + i % 5) % 4] if kind == 'wspec' else [0, 2, 9],
                                  il=[rng.choice([1, 10, -7]), rng.choice([1, 2])], xl=[rng.choice([1, 100]), rng.choice([1, 3])])
             if kind == 'wspec-irregular':
                 f['holes'] = conv.pick_holes(rng, max(nI, 3), max(nX, 3)) if nI >= 3 and nX >= 3 else [1]
@@ -87,6 +88,14 @@ def run_case(case, ctx):
     try:
         with env.quiet():
             with SgzConverter(path) as c:
+                # the converter is a reader: half of the cases use it before converting (the output must not depend on that)
+                if case.get('prehistory') and sp.stored:
+                    for k in rng.sample(sp.stored, min(len(sp.stored), 2))[::-1]:
+                        c.get_tracefield_values(k)
+                    c.get_trace(0)
+                    if sp.ntr == sp.grid_traces:
+                        c.gen_trace_header(sp.ntr - 1)
+                    prehist = True
                 c.convert_to_adv_sgz(out)
     finally:
         del R.open
@@ -131,7 +140,7 @@ def run_case(case, ctx):
 
     def cls(n_):
         return '<64' if n_ < 64 else '=64' if n_ == 64 else '<128' if n_ < 128 else '>=128'
-    strata = ['kind:' + case['kind'], 'il:' + cls(nI), 'xl:' + cls(nX), 'z:%s' % ('>1024' if nZ > 1024 else '=1024' if nZ == 1024 else '<=4' if nZ <= 4 else 'mid'),
+    strata = ['kind:' + case['kind'], 'prehistory:%s' % bool(case.get('prehistory')), 'il:' + cls(nI), 'xl:' + cls(nX), 'z:%s' % ('>1024' if nZ > 1024 else '=1024' if nZ == 1024 else '<=4' if nZ <= 4 else 'mid'),
               'narr:%d' % min(sp.narr, 3), '4n%%512:%s' % ('0' if sp.hlen % 512 == 0 else 'nz'), 'il%%4:%d' % (nI % 4), 'xl%%4:%d' % (nX % 4),
               'footer:' + ('padded' if sp.post_021 else 'unpadded')]
     return {'violations': bad, 'counters': {'reblocks': 1, 'compared': ncmp, 'source_range_reads': len(shadow.log)}, 'strata': strata,
